@@ -263,7 +263,13 @@ where
                 // after a seek() call.
                 match self.resume_incomplete_search(pos, is_new) {
                     Ok(true) => {}
-                    Ok(false) => return None,
+                    Ok(false) => {
+                        // end of input: return the records found so far (if any)
+                        if rset.buf_positions.is_empty() {
+                            return None;
+                        }
+                        break;
+                    }
                     Err(e) => {
                         // the offsets found so far do not refer to the data in `rset`
                         rset.buf_positions.clear();
